@@ -25,7 +25,7 @@ import (
 func cliBin() string { return os.Getenv("VERIF_DESYNC_BIN") }
 
 // classes the CLI tier must populate when the command is available
-var cliRequired = []string{"cli:tar", "cli:tar:output-absent", "cli:tar:output-preexisting-shorter", "cli:tar:output-preexisting-longer",
+var cliRequired = []string{"cli:tar:stdout", "cli:tar:stdout:skipped-node-in-tree", "cli:tar-i:stdout", "cli:tar-i:stdout:skipped-node-in-tree", "cli:tar:file:skipped-node-in-tree", "cli:tar", "cli:tar:output-absent", "cli:tar:output-preexisting-shorter", "cli:tar:output-preexisting-longer",
 	"cli:tar:output-previous-bigger-archive", "cli:tar-i", "cli:tar-i:output-preexisting-longer", "cli:tar:root-spelling:non-canonical"}
 
 var priors = []string{"absent", "shorter", "longer", "bigger"}
@@ -94,9 +94,16 @@ func writePrior(path, prior string, now []byte, bigger func() []byte) {
 
 // cliTar runs the two CLI forms on the tree at arg (spelled as the case says, relative to cwd)
 // whose in-process archive is lib.
-func cliTar(o *hx.Outcome, c Case, dir, cwd, arg string, lib []byte, want *catar.Node, flags uint64) {
+func cliTar(o *hx.Outcome, c Case, dir, cwd, arg string, lib []byte, want *catar.Node, flags uint64, special bool) {
 	if cwd == "" {
 		cwd = dir
+	}
+	if c.CLIOut == "stdout" {
+		cliTarStdout(o, c, dir, cwd, arg, lib, special)
+		return
+	}
+	if special {
+		o.Class("cli:tar:file:skipped-node-in-tree")
 	}
 	prior, priorIdx := c.Prior, c.PriorIdx
 	if priorClass(prior) == "output-absent" {
@@ -181,4 +188,90 @@ func cliTar(o *hx.Outcome, c Case, dir, cwd, arg string, lib []byte, want *catar
 	if pos != uint64(len(lib)) {
 		o.Fail("C13:cli:tar-i:index-differs", "index written by desync tar -i covers %d chunks ending at %d, the archive of the tree has %d bytes", len(idx.Items), pos, len(lib))
 	}
+}
+
+// runCLISplit runs the command with stdout and stderr captured separately.
+func runCLISplit(dir, cwd string, args ...string) (stdout []byte, stderr string, err error, timedOut bool) {
+	ctx, cancel := context.WithTimeout(context.Background(), 120*time.Second)
+	defer cancel()
+	cmd := exec.CommandContext(ctx, cliBin(), args...)
+	cmd.Dir = cwd
+	cmd.Env = []string{"HOME=" + dir, "TMPDIR=" + dir, "PATH=/usr/bin:/bin"}
+	var so, se bytes.Buffer
+	cmd.Stdout, cmd.Stderr = &so, &se
+	err = cmd.Run()
+	msg := se.String()
+	if len(msg) > 300 {
+		msg = msg[len(msg)-300:]
+	}
+	return so.Bytes(), msg, err, ctx.Err() != nil
+}
+
+// checkIndexAgainst verifies that b is a well-formed caidx whose chunks tile and hash lib.
+func checkIndexAgainst(o *hx.Outcome, sigPrefix, what string, b, lib []byte) {
+	idx, perr := ref.ParseIndex(b)
+	if perr != nil {
+		o.Fail(sigPrefix+":index-malformed", "%s (%d bytes) is not a well-formed caidx: %v", what, len(b), perr)
+		return
+	}
+	var pos uint64
+	for i, it := range idx.Items {
+		if it.End > uint64(len(lib)) {
+			break
+		}
+		if sha512.Sum512_256(lib[pos:it.End]) != it.ID {
+			o.Fail(sigPrefix+":index-differs", "%s: chunk %d does not hash the bytes %d..%d of the archive desync.Tar makes of the same tree", what, i, pos, it.End)
+			return
+		}
+		pos = it.End
+	}
+	if pos != uint64(len(lib)) {
+		o.Fail(sigPrefix+":index-differs", "%s covers %d chunks ending at %d, the archive of the tree has %d bytes", what, len(idx.Items), pos, len(lib))
+	}
+}
+
+// cliTarStdout: `desync tar - <dir>` and `desync tar -i -s <store> - <dir>`. What arrives on
+// stdout must be exactly the archive (index); warnings about skipped nodes belong on stderr.
+func cliTarStdout(o *hx.Outcome, c Case, dir, cwd, arg string, lib []byte, special bool) {
+	stdout, msg, err, timedOut := runCLISplit(dir, cwd, "tar", "-", arg)
+	if timedOut {
+		return
+	}
+	o.Class("cli:tar:stdout")
+	if special {
+		o.Class("cli:tar:stdout:skipped-node-in-tree")
+	}
+	if c.Spelling != "" && c.Spelling != "canonical" {
+		o.Class("cli:tar:root-spelling:non-canonical")
+	}
+	if err != nil {
+		o.Fail("C13:cli:tar:stdout:failed", "desync tar - %q failed: %v: %s", arg, err, msg)
+	} else if !bytes.Equal(stdout, lib) {
+		_, errs := catar.ValidateAll(stdout, catar.ValidateOptions{RequireSorted: true})
+		codes := map[string]bool{}
+		for _, e := range errs {
+			if !codes[e.Code] {
+				codes[e.Code] = true
+				o.Fail("C13:cli:tar:stdout:invalid:"+e.Code, "stdout of desync tar - %q (%d bytes, skipped node types in the tree: %v) is not a well-formed catar: %v", arg, len(stdout), special, e)
+			}
+		}
+		o.Fail("C13:cli:tar:stdout:differs-from-library", "stdout of desync tar - %q has %d bytes and differs from the archive desync.Tar makes of the same tree (%d bytes; skipped node types in the tree: %v)",
+			arg, len(stdout), len(lib), special)
+	}
+
+	store := filepath.Join(dir, "store")
+	os.Mkdir(store, 0o755)
+	stdout, msg, err, timedOut = runCLISplit(dir, cwd, "tar", "-i", "-s", store, "-", arg)
+	if timedOut {
+		return
+	}
+	o.Class("cli:tar-i:stdout")
+	if special {
+		o.Class("cli:tar-i:stdout:skipped-node-in-tree")
+	}
+	if err != nil {
+		o.Fail("C13:cli:tar-i:stdout:failed", "desync tar -i -s %q - %q failed: %v: %s", store, arg, err, msg)
+		return
+	}
+	checkIndexAgainst(o, "C13:cli:tar-i:stdout", fmt.Sprintf("stdout of desync tar -i -s <store> - %q (skipped node types in the tree: %v)", arg, special), stdout, lib)
 }
